@@ -25,4 +25,4 @@ for _p in sorted(glob.glob(os.path.join(_here, "propdefs.d", "*.py"))):
 NOT_CLAIMED = {}
 
 # commits in /repo that add cfg-guarded hooks
-HOOK_COMMITS = []
+HOOK_COMMITS = ["f922b341", "b6f96d7c"]
